@@ -272,7 +272,7 @@ def _check_mix(res, keys, coeffs, masses):
     tot = sum(masses[k] * c for k, c in stoich.items())
     exp = {k: masses[k] * c / tot for k, c in stoich.items()}
     # the substances may also be handed in: in the mixture's order, in reverse order, or as a larger registry
-    for how in ("default", "given", "given-reversed", "registry", "OrderedDict", "Counter", "defaultdict"):
+    for how in ("default", "given", "given-reversed", "registry", "OrderedDict", "Counter", "defaultdict", "MappingProxyType", "UserDict", "ChainMap"):
         if how != "default":
             res.states += 1
             res.transitions += 1
@@ -280,10 +280,15 @@ def _check_mix(res, keys, coeffs, masses):
         try:
             if how == "default":
                 got = chempy.mass_fractions(stoich)
-            elif how in ("OrderedDict", "Counter", "defaultdict"):
+            elif how in ("OrderedDict", "Counter", "defaultdict", "MappingProxyType", "UserDict", "ChainMap"):
                 import collections
+                import types
 
-                if how == "defaultdict":
+                if how == "MappingProxyType":
+                    arg = types.MappingProxyType(dict(stoich))  # mappings that are not dict subclasses
+                elif how == "ChainMap":
+                    arg = collections.ChainMap(dict(list(stoich.items())[:1]), dict(list(stoich.items())[1:]))
+                elif how == "defaultdict":
                     arg = collections.defaultdict(int)
                     arg.update(stoich)
                 else:
